@@ -1,7 +1,7 @@
-(* PropC12.v — C12: a batch append is all-or-nothing (entry level: one call = one entry; the codec validates the whole batch; replay applies all records of an entry or fails).
+(* PropC12.v — C12: a batch append is all-or-nothing (one call = one entry; the codec validates the whole batch; replay applies all records of an entry or fails; a torn or damaged entry is delivered whole or not at all by the record reader).
    Statements only; each theorem is closed by `exact <lemma>`; proofs live in the imported files. *)
 From Coq Require Import Lia NArith List.
-From MRL Require Import Bytes Params Names Frame Record Mem Rolling Log SpecRefine RecordProofs.
+From MRL Require Import Bytes Params Names Frame Record Mem Rolling Log Driver SpecRefine RecordProofs StreamProofs TornProofs DamageProofs.
 
 (* whatever decodes as an AppendRecords entry is exactly the serialization of the batch it decodes to: no partial batch *)
 Theorem C12_batch_decodes_whole :
@@ -45,4 +45,44 @@ Theorem C12_append_entry_roundtrip :
     Some (EAppend q p (number_from p payloads)).
 Proof. exact append_entry_roundtrip. Qed.
 Print Assumptions C12_append_entry_roundtrip.
+
+(* crash inside the batch's entry (any byte cut): the entry is delivered whole or not at all (stream level) *)
+Theorem C12_torn_entry_all_or_nothing :
+    forall P : params,
+    7 < BS P ->
+    BS P <= 65542 ->
+    (forall (t : byte) (p : bytes), crcf P t p < 2 ^ 32) ->
+    forall (es : list bytes) (t x e : bytes) (k : nat) (j : N) (fuel gofuel : nat) (S0 : bytes),
+    no_zero_collision P ->
+    encs_rel P 0 es t ->
+    enc_rel P (lenN t) true x e k ->
+    j < lenN e ->
+    S0 = mem_stream P (t ++ takeN j e) ->
+    (length es + 3 <= fuel)%nat ->
+    lenN S0 <= 7 * N.of_nat gofuel ->
+    exists tail : list mem_read,
+    mem_read_all P fuel gofuel (rr_start P S0) = map MrEntry es ++ tail /\
+    (tail = [MrEnd] \/
+    tail = [MrCorrupt; MrEnd] \/ tail = [MrEntry x; MrEnd] /\ all_zero (dropN j e) = true).
+Proof. exact torn_read_nocoll. Qed.
+Print Assumptions C12_torn_entry_all_or_nothing.
+
+(* CRC-detected damage of any frame of the batch's entry: the entry is dropped as a whole, never delivered in part *)
+Theorem C12_damaged_entry_dropped_whole :
+    forall P : params,
+    7 < BS P ->
+    BS P <= 65542 ->
+    (forall (t : byte) (p : bytes), crcf P t p < 2 ^ 32) ->
+    forall (es1 : list bytes) (x : bytes) (es2 : list bytes) (w : vecw) (ns : list N),
+    mem_write_all P {| vw_cursor := 0; vw_buf := [] |} (es1 ++ [x] ++ es2) = (w, ns) ->
+    exists (t1 ex0 : list byte) (k : nat) (t2 : list byte),
+    vw_buf w = t1 ++ ex0 ++ t2 /\
+    enc_rel P (lenN t1) true x ex0 k /\
+    (forall ed : bytes,
+    enc_dmg P (lenN t1) true x ex0 ed k ->
+    lenN ed = lenN ex0 /\
+    mem_read_stream P (mem_stream P (t1 ++ ed ++ t2)) =
+    map MrEntry es1 ++ [MrCorrupt] ++ map MrEntry es2 ++ [MrEnd]).
+Proof. exact C09_one_damaged_entry. Qed.
+Print Assumptions C12_damaged_entry_dropped_whole.
 
